@@ -15,6 +15,7 @@ func Verif_Step_icmp4_arb() {
 	d, sink, src, _, target, min, m := vSetup(false)
 	P := V.Bytes("P", L)
 	N.BoundArb4(P)
+	V.ClockAdvance(time.Duration(V.U32("flight"))) // the reply arrives an arbitrary time after the last send
 	src.Next = append([]byte(nil), P...)
 	resp, err := d.ReceiveProbe(100 * time.Millisecond)
 	if err != nil {
@@ -33,7 +34,9 @@ func Verif_Step_icmp4_arb() {
 	if L >= ihl*4+8+1 {
 		qihl = V.Concretize(int(P[ihl*4+8] & 0xf))
 	}
-	pr := sink.Pkts[V.Concretize(int(ttl-min))]
+	idx := V.Concretize(int(ttl - min))
+	pr := sink.Pkts[idx]
+	V.Assert(resp.RTT == time.Duration(V.NowNs()-sink.Times[idx]), "C05/rtt-send-to-receive-same-probe")
 	V.Assert(vGenuine4(P, ihl, qihl, pr), "C01/genuine")
 	V.Assert(resp.IP == N.Src4(P), "C01/responder")
 	V.Assert(resp.IsDest == vDestForm4(P, ihl, target), "C04/dest-iff-proof")
@@ -76,6 +79,7 @@ func Verif_Step_icmp6_arb() {
 	d, sink, src, _, target, min, m := vSetup(true)
 	P := V.Bytes("P", L)
 	N.BoundArb6(P)
+	V.ClockAdvance(time.Duration(V.U32("flight"))) // the reply arrives an arbitrary time after the last send
 	src.Next = append([]byte(nil), P...)
 	resp, err := d.ReceiveProbe(100 * time.Millisecond)
 	if err != nil {
@@ -89,7 +93,9 @@ func Verif_Step_icmp6_arb() {
 	ttl := resp.TTL
 	V.Assert(V.All(ttl >= min, ttl <= m), "C01/ttl-was-sent")
 	V.Assume(V.All(ttl >= min, ttl <= m))
-	pr := sink.Pkts[V.Concretize(int(ttl-min))]
+	idx := V.Concretize(int(ttl - min))
+	pr := sink.Pkts[idx]
+	V.Assert(resp.RTT == time.Duration(V.NowNs()-sink.Times[idx]), "C05/rtt-send-to-receive-same-probe")
 	V.Assert(vGenuine6(P, pr), "C01/genuine")
 	V.Assert(resp.IP == N.Src6(P), "C01/responder")
 	V.Assert(resp.IsDest == vDestForm6(P, target.As16()), "C04/dest-iff-proof")
